@@ -864,7 +864,7 @@ pub fn build_expansion(glyphs: &[u16], k: u16, lookups: u8, variant: u64) -> Vec
 /// GSUB/GPOS whose ScriptList and FeatureList records alias one sub-table each (see
 /// `Surgery::InstallAliasedLists`). The LookupList comes first, then the smaller of the two lists,
 /// then the larger one, so that all three header offsets fit 16 bits.
-pub fn build_aliased_lists(gpos: bool, glyph: u16, scripts: u16, langsys: u16, features: u16, frecs: u16, lookups: u16) -> Option<Vec<u8>> {
+pub fn build_aliased_lists(gpos: bool, default_langsys: bool, glyph: u16, scripts: u16, langsys: u16, features: u16, frecs: u16, lookups: u16) -> Option<Vec<u8>> {
     let p16 = |v: &mut Vec<u8>, x: u16| v.extend_from_slice(&x.to_be_bytes());
     let (s, l, f, n, k) = (usize::from(scripts.max(1)), usize::from(langsys), usize::from(features), usize::from(frecs.max(1)), usize::from(lookups));
     // ScriptList
@@ -886,7 +886,7 @@ pub fn build_aliased_lists(gpos: bool, glyph: u16, scripts: u16, langsys: u16, f
         p16(&mut sl, script_off as u16);
     }
     let ls_off = 4 + 6 * l;
-    p16(&mut sl, ls_off as u16); // defaultLangSys: the shared one
+    p16(&mut sl, if default_langsys || l == 0 { ls_off as u16 } else { 0 }); // defaultLangSys: the shared one or none
     p16(&mut sl, l as u16);
     for i in 0..l {
         sl.extend_from_slice(&[b'A' + (i / 26 % 26) as u8, b'A' + (i % 26) as u8, b'A', b' ']);
@@ -2001,12 +2001,12 @@ pub fn apply(disk: &mut Disk, s: &Surgery) -> Result<(), String> {
             }
             Ok(())
         }
-        Surgery::InstallAliasedLists { table, glyph, scripts, langsys, features, frecs, lookups } => {
+        Surgery::InstallAliasedLists { table, glyph, scripts, langsys, features, frecs, lookups, default_langsys } => {
             let n = num_glyphs(disk)?;
             if *glyph >= n || (table != "GSUB" && table != "GPOS") {
                 return Err("surgery: aliased lists need a glyph of the font and GSUB or GPOS".into());
             }
-            let t = build_aliased_lists(table == "GPOS", *glyph, *scripts, (*langsys).min(64), *features, *frecs, *lookups)
+            let t = build_aliased_lists(table == "GPOS", *default_langsys, *glyph, *scripts, (*langsys).min(64), *features, *frecs, *lookups)
                 .ok_or("surgery: aliased lists do not fit 16-bit offsets")?;
             disk.tables.insert(tag_from_str(table), Rc::new(t));
             if table == "GPOS" {
